@@ -9,6 +9,14 @@ CHECKS = {
                 text="MIXED. Proved by SMT for unbounded queues from arbitrary states: Condition.wait (tail append, timer registration and capture fact), wait.on_timeout (only a PENDING waiter resolves False; nothing else changes), notify_all (delegates with the queue length), Event.wait (both branches and both registered lambdas), Event.clear/is_set/__init__. Condition.notify's two-loop postcondition (exactly min(n, live) woken in arrival order with True) and Event.set are explored symbolically only for queues/sets of size <= 3 (symbolic states, symbolic n) - bounded, not counted as proved.",
                 note="Trusted: asyncio.Future model, IOLoop timer registration as ghost events, gen.with_timeout replaced by a stub returning a fresh pending future (its contract is C36's). notify(n) assumed n >= 0.",
                 technique="deductive: per-operation contracts from arbitrary states, VCs from the real source (pyvc) + z3; bounded symbolic exploration for notify/set"),
+    "C35": dict(category="other", design="DESIGN.md §6.6 C35, App. A.1",
+                text="MIXED. Class invariant (pending getter => queue empty; pending putter => queue full; len <= maxsize; unfinished-task accounting; join flag <=> no unfinished tasks) and whole-view per-operation postconditions of Queue and LifoQueue proved by SMT from arbitrary invariant states with unbounded queue/getter/putter deques: put_nowait, get_nowait, put, get, task_done, join, __init__, _consume_expired (two loops cut at invariants), the _set_timeout.on_timeout closure, environment cancellation. PriorityQueue differs only in _put/_get (heapq, trusted) and is covered by the concrete cross-check only.",
+                note="Trusted: asyncio.Future model, timers as ghost registrations, locks.Event replaced by a flag stub (its own contract is C34), heapq. Items are integers in the symbolic units (the queue only moves items).",
+                technique="deductive: class invariant + per-operation contracts + loop invariants, VCs from the real source (pyvc), z3/cvc5"),
+    "C36": dict(category="other", design="DESIGN.md §6.6 C36",
+                text="MIXED. Callback contracts proved by SMT over symbolic future states: chain_future.copy (target takes the source's outcome including cancellation; never raises), chain_future/future_add_done_callback registration, with_timeout (registration + timeout/error callbacks). multi_future and its callback, and WaitIterator's operations are explored symbolically for <= 3 inputs over every state/outcome combination (bounded). History-level stand-in: every outcome combination x completion order x pre-completed subset of <= 3 inputs on a virtual-time loop (exhaustive). Found and fixed two genuine defects (F-16, F-17: cancelled inputs left chain_future/multi pending forever).",
+                note="Trusted: asyncio.Future model (done-callbacks scheduled, not inline), IOLoop timers as ghost registrations. Inputs assumed distinct (a set of inputs, per the statement).",
+                technique="deductive: closure-unit contracts, VCs from the real source (pyvc) + z3; bounded symbolic exploration and exhaustive small-scope histories"),
 }
 NOT_APPLICABLE = {
     "C40": "two OS threads synchronised by a condition variable and a socket pair; deadlock-freedom/eventual dispatch under thread interleavings is outside what sequential per-function contracts can express (DESIGN §6.7)",
